@@ -19,6 +19,7 @@ import (
 
 	"github.com/256dpi/gomqtt/broker"
 	"github.com/256dpi/gomqtt/packet"
+	"github.com/256dpi/gomqtt/transport"
 
 	"verifh/hx"
 )
@@ -435,6 +436,7 @@ func runC13(c *hx.Ctx) {
 		o.syslog(n, s)
 		c.Stat("scenarios", 1)
 	}
+	blockedTakeover(o, c)
 	// session handover: the persistent session passes to the newcomer without loss or duplication
 	for _, w := range []int{1, 3} {
 		n := o.scn(fmt.Sprintf("c13 handover window=%d", w))
@@ -487,6 +489,57 @@ func runC13(c *hx.Ctx) {
 		o.syslog(n, s)
 		c.Stat("scenarios", 1)
 	}
+}
+
+// the witness of the open known finding: the displaced connection is blocked in a carrier
+// write (its peer stopped reading), so Close() cannot get the send mutex while Setup holds
+// the backend's mutexes
+func blockedTakeover(o *out, c *hx.Ctx) {
+	n := o.scn("c13 old connection blocked in a carrier write (known finding witness)")
+	s := startSys(10, 100)
+	a, b := net.Pipe() // unbuffered: a write blocks until the other side reads
+	s.engine.Handle(transport.NewNetConn(a))
+	old := transport.NewNetConn(b)
+	cp := packet.NewConnect()
+	cp.ClientID = "stuck"
+	cp.CleanSession = true
+	_ = old.Send(cp, false)
+	_, _ = old.Receive() // CONNACK
+	_ = old.Send(&packet.Subscribe{ID: 1, Subscriptions: []packet.Subscription{{Topic: "t", QOS: 0}}}, false)
+	_, _ = old.Receive() // SUBACK; from now on the old peer does not read any more
+	feeder, _ := dialPeer("feed", s.port, true)
+	feeder.connect("feed", true, nil)
+	big := make([]byte, 10000)
+	for i := 0; i < 5; i++ {
+		feeder.send(&packet.Publish{Message: packet.Message{Topic: "t", Payload: big}})
+	}
+	time.Sleep(50 * time.Millisecond)
+	newcomer, _ := dialPeer("newcomer", s.port, true)
+	got := make(chan bool, 1)
+	go func() { got <- newcomer.connect("stuck", true, nil) != nil }()
+	witnessOK := false
+	takeoverOK := false
+	select {
+	case takeoverOK = <-got:
+	case <-time.After(700 * time.Millisecond):
+	}
+	wit, _ := dialPeer("witness", s.port, true)
+	wgot := make(chan bool, 1)
+	go func() { wgot <- wit.connect("unrelated", true, nil) != nil }()
+	select {
+	case witnessOK = <-wgot:
+	case <-time.After(700 * time.Millisecond):
+	}
+	o.direct("takeover_blocked_in_write", n, takeoverOK && witnessOK,
+		fmt.Sprintf("old connection blocked in a carrier write: newcomer got CONNACK=%v, unrelated client got CONNACK=%v within 700ms", takeoverOK, witnessOK))
+	// unblock: the stuck peer goes away, the pending write fails
+	_ = b.Close()
+	time.Sleep(50 * time.Millisecond)
+	newcomer.close()
+	wit.close()
+	feeder.close()
+	s.stop()
+	o.syslog(n, s)
 }
 
 // ------------------------------------------------------------------- C14
